@@ -15,7 +15,7 @@ def generate(seed, profile='C03', length=60):
 
     # flavour 5: a class whose operator== is not declared noexcept; profile C13 adds one or two immediate bindings reading the property
     # (instrumented function): a write of an equal value must not run it
-    fl = r.choice([0, 1, 1, 2, 2, 3, 4, 5] if profile != 'C13' else [0, 1, 1, 2, 5, 5, 5, 3, 4])
+    fl = r.choice([0, 1, 1, 2, 2, 3, 4, 5, 6, 6] if profile != 'C13' else [0, 1, 1, 2, 5, 5, 5, 3, 4, 6])
     pool = [0, 1, 2, 3, 10, 11, 12, 13, 21, 22, 35]
 
     def val():
